@@ -153,6 +153,7 @@ def payload_lines(pid, n):
 _MARK = re.compile(r"[BEm]:T\d+\.\d+(?::\d+)?")
 _ANYMARK = re.compile(r"[BEm]:T\d+\.\d+(?::\d+)?|S:same")
 _FRAME = re.compile(r"F\d+_\d+-\d+")
+_KROW = re.compile(r"(?m)^(?:\x1b\[[0-9;]*[A-Za-z]|\r)*K\d+ ")
 
 
 def wl_schedules(ctx, rng, case_no):
@@ -709,7 +710,10 @@ def taint(events, writes):
             if rt != ht and hs < rs <= we:
                 return True
         for w in writes:
-            if w[1] != ht and hs < w[0] <= we and _FRAME.search(w[2]):
+            # (a Live frame carries F tokens, the rows of a Progress frame the task descriptions K<n>; the render event
+            # above is logged when the frame's renderer is CALLED, its height is recorded a few lines later - a print
+            # whose hook falls between the two is only seen through the other thread's write)
+            if w[1] != ht and hs < w[0] <= we and (_FRAME.search(w[2]) or _KROW.search(w[2])):
                 return True
     return False
 
